@@ -18,7 +18,8 @@
                = true  : a member never deletes beyond its OWN snapshot index (repair)
      pid_fresh = false : the propose counter restarts at 0 after a restart (today)
                = true  : propose ids are never reused by a later incarnation (repair)
-     wal_on            : shard WAL enabled (default true in the product). *)
+     wal_on            : shard WAL enabled (default true in the product).
+     trunc_all / snap_install : see the config record (forced truncation branches and raft snapshot installation). *)
 From Coq Require Import List Arith NArith ZArith Bool Lia.
 Import ListNotations.
 
@@ -82,7 +83,12 @@ Record config := mkCfg {
   fsz : nat;           (* entries per entry-log file (maxNumEntries) *)
   wal_on : bool;
   clamp : bool;
-  pid_fresh : bool }.
+  pid_fresh : bool;
+  trunc_all : bool;     (* true: an index is proposed/used for truncation only if EVERY member (also a dead one) has
+                           persisted it as committed (repair); false: today's rules (healthy branch: all members alive;
+                           tolerate-time branch: only the ACTIVE members' Match counts; size branch: nothing counts) *)
+  snap_install : bool } (* true: a member that needs entries the leader has deleted gets a raft snapshot, which carries
+                           no shard data (today); false: this never has to happen *).
 
 (* number of leading entries removed by DeleteBefore(t): whole files before the file that contains index t *)
 Definition tr_first (fsz t : nat) : nat := if Nat.eqb t 0 then 0 else ((t - 1) / fsz) * fsz.
@@ -151,6 +157,21 @@ Fixpoint elect_rg_master (m : nat) (ps : list (nat * bool)) (online : nat -> boo
 Definition commit_result_current (unmarshal_ok apply_ok : bool) : bool := unmarshal_ok.
 Definition commit_result_repaired (unmarshal_ok apply_ok : bool) : bool := unmarshal_ok && apply_ok.
 
+(* ------------------------------------------------------------------ coordinator: per-shard write with retry
+   (PointsWriter.writeRowToShard): the store's answers in order (the last one repeats); `fuel` = attempts that fit
+   into the coordinator's timeout. Result: (acknowledged to the client, store calls made). *)
+Inductive wres := WOk | WRetry | WFail.
+Fixpoint coord_retry (fuel : nat) (script : list wres) (last : wres) (calls : nat) : bool * nat :=
+  let r := match script with [] => last | x :: _ => x end in
+  match r with
+  | WOk => (true, S calls)
+  | WFail => (false, S calls)
+  | WRetry => match fuel with
+              | O => (false, S calls)
+              | S f => coord_retry f (tl script) last (S calls)
+              end
+  end.
+
 (* ------------------------------------------------------------------ events *)
 Inductive event :=
 | Propose (n : nat) (b : batch)          (* WriteToRaft on node n: register in committedDataC, hand to raft *)
@@ -164,7 +185,10 @@ Inductive event :=
 | FlushSwap (n : nat)                    (* writeSnapshot: WAL switch, memtable swap, RaftFlushC signal *)
 | SnapPersist (n : nat)                  (* snapshotAfterFlush: CreateSnapshot(SnapShotter.CommittedIndex) *)
 | FlushCommit (n : nat)                  (* commitSnapshot + RemoveWalFiles *)
-| TruncPropose (mm : nat)                (* deleteEntryLog on the leader; mm = min Progress.Match *)
+| TruncPropose (mm : nat)                (* deleteEntryLog on the leader, healthy branch; mm = min Progress.Match *)
+| TruncForce (mm : nat)                  (* forceDeleteEntryLog after clear-entryLog-tolerate-time: mm = min Match of the ACTIVE members *)
+| TruncLocal (n : nat)                   (* forceDeleteEntryLogBySize: local DeleteBefore(own snapshot index) *)
+| RSnapshot (m : nat)                    (* raft MsgSnap: the leader no longer has the entries member m needs *)
 | Kill (n : nat) | Restart (n : nat) | Pause (n : nat) | Resume (n : nat)
 | Rotate (newm : nat).                   (* meta: UpdateReplication with GetNewRg's result *)
 
@@ -177,6 +201,16 @@ Definition pend_remove (p : list (N * batch)) (pid : N) : list (N * batch) :=
   filter (fun x => negb (N.eqb (fst x) pid)) p.
 
 Definition all_up (s : sys) : bool := forallb (fun m => up (nodes s m)) (seq 0 (nn (cfg s))).
+(* every member of the group has persisted index idx as committed *)
+Definition members_have (s : sys) (idx : nat) : bool :=
+  forallb (fun m => Nat.leb idx (hcommit (nodes s m))) (seq 0 (nn (cfg s))).
+Definition trunc_idx (c : config) (mm snp : nat) : nat := if same_file (fsz c) mm snp then snp else Nat.min mm snp.
+
+(* what a raft snapshot installs on member x (today's code: Snapshot.Data is the literal "snapshot", no shard data):
+   the log is replaced by the snapshot point, applied index jumps, the shard is untouched *)
+Definition snap_install_node (x lx : node) : node :=
+  mkNode (up x) (paused x) (firstn (snap lx) (elog lx)) (snap lx) (snap lx) (snap lx) (wal x) (walold x) (files x)
+         (snap lx) (snap lx) (mem x) (imm x) (sig x) (pend x) (nextpid x).
 
 (* restart: shard WAL replay, then raft replay of entries [max 1 snap .. hcommit] unless the range is compacted *)
 Definition restart_node (c : config) (x : node) : node :=
@@ -243,7 +277,14 @@ Section Step.
   Definition step (s : sys) (e : event) : option sys :=
     let c := cfg s in
     match e with
-    | RElect _ | RReplicate _ _ | RCommit _ | RLearn _ _ =>
+    | RReplicate m _ =>
+        (* the leader can ship entries only if it still has what the member lacks *)
+        if raft_ok s e && match leader s with
+                          | Some l => Nat.leb (efirst (nodes s l)) (length (elog (nodes s m)))
+                          | None => false
+                          end
+        then Some (raft_effect s e) else None
+    | RElect _ | RCommit _ | RLearn _ _ =>
         if raft_ok s e then Some (raft_effect s e) else None
     | RStepDown => Some (mkSys c (nodes s) (glog s) None (master s) (peers s) (proposed s) (acked s))
     | Propose n b =>
@@ -304,9 +345,34 @@ Section Step.
         match leader s with
         | Some l =>
             let x := nodes s l in
-            if avail x && all_up s && negb (Nat.eqb (snap x) 0) then
-              let idx := if same_file (fsz c) mm (snap x) then snap x else Nat.min mm (snap x) in
+            let idx := trunc_idx c mm (snap x) in
+            if avail x && all_up s && negb (Nat.eqb (snap x) 0) && (negb (trunc_all c) || members_have s idx) then
               Some (set_node s l (with_elog x (elog x ++ [EClear idx])))
+            else None
+        | None => None
+        end
+    | TruncForce mm =>
+        match leader s with
+        | Some l =>
+            let x := nodes s l in
+            let idx := trunc_idx c mm (snap x) in
+            if avail x && negb (Nat.eqb (snap x) 0) && (negb (trunc_all c) || members_have s idx) then
+              Some (set_node s l (with_elog x (elog x ++ [EClear idx])))
+            else None
+        | None => None
+        end
+    | TruncLocal n =>
+        let x := nodes s n in
+        if avail x && (negb (trunc_all c) || members_have s (snap x)) then
+          Some (set_node s n (mkNode (up x) (paused x) (elog x) (Nat.max (efirst x) (tr_first (fsz c) (snap x))) (hcommit x) (snap x)
+                                     (wal x) (walold x) (files x) (applied x) (snapc x) (mem x) (imm x) (sig x) (pend x) (nextpid x)))
+        else None
+    | RSnapshot m =>
+        match leader s with
+        | Some l =>
+            if snap_install c && avail (nodes s l) && avail (nodes s m) && negb (Nat.eqb m l)
+               && Nat.ltb (length (elog (nodes s m))) (efirst (nodes s l))
+            then Some (set_node s m (snap_install_node (nodes s m) (nodes s l)))
             else None
         | None => None
         end
@@ -380,8 +446,10 @@ Definition init (c : config) : sys :=
   mkSys c (fun _ => node0) [] None 0 (seq 1 (nn c - 1)) [] [].
 
 (* the product's defaults with the repairs / as the code is today *)
-Definition cfg_repaired (n f : nat) : config := mkCfg n f true true true.
-Definition cfg_current (n f : nat) : config := mkCfg n f true false false.
+Definition cfg_repaired (n f : nat) : config := mkCfg n f true true true true false.
+Definition cfg_current (n f : nat) : config := mkCfg n f true false false false true.
+(* the tree after the three fix: commits (clamp, fresh propose ids), truncation branches as coded *)
+Definition cfg_today (n f : nat) : config := mkCfg n f true true true false true.
 
 (* observations *)
 Definition read (s : sys) (n : nat) (k : key) : option val := get (view (nodes s n)) k.
